@@ -218,6 +218,7 @@ def run(ctx):
 
     d6_token_cursor(db, rep)
     d7_line_copy(db, rep)
+    d8_name_exact(db, rep)
 
     # ---- D4: the synthetic name of an inline literal identifies the literal ----------------------------
     # orc_program_append_str_n finds operands BY NAME.  The name made up for an inline literal must therefore be an
@@ -393,3 +394,31 @@ def d7_line_copy(db, rep):
                       (f.name, unparse(sd.get(access_path(strip_casts(a[li])), a[li]))[:80], base), line=c.line)
     if n < 1:
         raise AnalysisBroken("no copy out of the parser's text cursor found in orcparse.c")
+
+
+def d8_name_exact(db, rep):
+    """D8: instructions refer to their operands BY NAME, and declarations are distinct if their names differ in any byte.  The
+    lookup must therefore return a variable only where an exact comparison (strcmp (...) == 0) of the whole name has succeeded;
+    a folded, prefix or hashed comparison resolves an operand to another declared variable."""
+    f = db.func("orc_program_find_var_by_name", "orcprogram")
+    rep.saw(f)
+    fc = Facts(f)
+    rets = [r for r in f.walk() if r.k == "ReturnStmt" and r.c and r.c[0] is not None and strip_casts(r.c[0]).v is None]
+    if not rets:
+        raise AnalysisBroken("orc_program_find_var_by_name: no return of a found index")
+    for r in rets:
+        exact = False
+        how = []
+        for c in fc.conds(r):
+            if c[0] == "switch":
+                continue
+            n, pol = c
+            for e in n.walk():
+                if e.k == "CallExpr":
+                    how.append(e.name)
+                    if e.name == "strcmp" and pol is False and any("name" in unparse(a) for a in e.args()):
+                        exact = True
+        rep.check(exact, "D8-NAME-EXACT", where(f), "return@%s" % r.line,
+                  "a variable is returned only where strcmp (name, ...) == 0",
+                  "orc_program_find_var_by_name returns a variable without an exact comparison of the whole name (comparisons on the path: %s): two "
+                  "variables whose names differ (in case, in a suffix ...) are taken for one, and an error-free parse builds other operands than written" % how, line=r.line)
